@@ -118,7 +118,9 @@ func allStrings(alpha string, n int) []string {
 func runC20(c *config) {
 	o := c.out
 	if c.replay != "" {
-		c20Replay(c)
+		if !c20MDZerosReplay(c) {
+			c20Replay(c)
+		}
 		return
 	}
 	r := newRng(c.seed, "c20")
@@ -265,7 +267,8 @@ func runC20(c *config) {
 		c20CheckModule(c, r, m, i < 1)
 	}
 	c20Escaped(c, r)
-	c20Bytes(c, newRng(c.seed, "c20bytes")) // one-byte differences over the whole byte range, independent reference order (c20bytes.go)
+	c20MDZeros(c, newRng(c.seed, "c20mdzeros")) // metadata / attribute group IDs written with leading zeros, every permutation (c20mdzeros.go)
+	c20Bytes(c, newRng(c.seed, "c20bytes"))     // one-byte differences over the whole byte range, independent reference order (c20bytes.go)
 }
 
 func c20Digits(r *rng) string {
